@@ -160,7 +160,8 @@ def progress(F, R, A):
                     seen.add(x)
                     stack.extend(B.succ(x))
                 key = "%s loop#%d" % (p, k)
-                if cyc and p == "parser::Parser::parse_expression":
+                pratt = any(B.blocks[b]["term"]["k"] == "call" and (B.blocks[b]["term"].get("callee") or "").endswith("::peek_infix") for b in body)
+                if cyc and pratt:
                     ok, det = pratt_obligation(F, R)
                     R.ob("loop-progress", key, ok, "Pratt loop: the non-advancing path (no infix rule) is excluded by the table obligation: " + det, F.loc(F.fns[p]))
                 else:
@@ -190,7 +191,7 @@ def progress(F, R, A):
             c = t.get("callee")
             if c in pars_fns and has_cursor(c) and (bi not in adv or c not in MA_p):
                 edges.setdefault(p, set()).add(c)
-            if c is None and p == "parser::Parser::parse_expression":
+            if c is None:
                 # indirect calls: prefix functions are called before any advance, infix ones after next_token()
                 fnty = t.get("fnty", "")
                 if "bool" in fnty:
@@ -310,27 +311,22 @@ def diagnostics(F, R, A):
     # (c2) parse_program returns Some only if no error was printed
     pp = F.fn("parse_program")
     if R.anchor("main::parse_program", pp):
-        leaves = H.return_leaves(H.body_of(pp))
-        det = ["%s when %s" % (H.render(e), H.guard_text(g)) for e, g in leaves]
-        ok = len(leaves) == 2
-        for e, g in leaves:
-            c = H.ctor_of(H.strip(e)) or ""
-            gt = H.guard_text(g)
-            if H.last(c) == "Some":
-                ok = ok and gt == "!print_parse_errors(&parser)"
-            elif H.last(c) == "None":
-                ok = ok and gt == "print_parse_errors(&parser)"
-            else:
-                ok = False
-        R.ob("errors-stop-execution", "parse_program returns Some only without errors", ok, "; ".join(det), F.loc(pp))
+        # truth table of parse_program over its conditions: Some exactly when print_parse_errors(parser) is false
+        cls = lambda e: H.last(H.ctor_of(H.strip(e)) or "") or H.render(e)
+        t = H.bool_table(None, pp, classify=cls)
+        ok, det = False, "not a function of boolean conditions"
+        if t is not None:
+            atoms, table = t
+            det = "; ".join("%s when {%s}" % (v, ", ".join(sorted(k)) or "none true") for k, v in sorted(table.items(), key=lambda kv: sorted(kv[0])))
+            ok = len(atoms) == 1 and atoms[0].startswith("print_parse_errors(") and table[frozenset()] == "Some" and table[frozenset(atoms)] == "None"
+        R.ob("errors-stop-execution", "parse_program returns Some only without errors", ok, det, F.loc(pp))
     pe = F.fn("print_parse_errors")
     pr = F.fn("parser::Parser::print_errors")
     if R.anchor("print_parse_errors", pe) and R.anchor("Parser::print_errors", pr):
-        l1 = ["%s when %s" % (H.render(e), H.guard_text(g)) for e, g in H.return_leaves(H.body_of(pe))]
-        l2 = ["%s when %s" % (H.render(e), H.guard_text(g)) for e, g in H.return_leaves(H.body_of(pr))]
-        R.ob("errors-stop-execution", "print_parse_errors is true iff print_errors", sorted(l1) == ["false when !parser.print_errors()", "true when parser.print_errors()"], "; ".join(l1), F.loc(pe))
-        R.ob("errors-stop-execution", "print_errors is true iff errors is non-empty",
-             sorted(l2) == ["false when self.errors.is_empty()", "true when !self.errors.is_empty()"], "; ".join(l2), F.loc(pr))
+        ok, det = H.bool_fn_is(None, pe, r"^print_errors\(parser\)$")
+        R.ob("errors-stop-execution", "print_parse_errors is true iff print_errors", ok, det, F.loc(pe))
+        ok, det = H.bool_fn_is(None, pr, r"^self\.errors\.is_empty\(\)$", negated=True)
+        R.ob("errors-stop-execution", "print_errors is true iff errors is non-empty", ok, det, F.loc(pr))
     # (c3) VM construction / run dominated by the success arms
     for fn in ("run_buf", "run_prompt"):
         g = F.fn(fn)
